@@ -84,7 +84,7 @@ func epStatement(level string, tsa bool) (trustpolicy.SignatureVerification, []s
 	return sv, []string{"ca:s1"}, []string{"*"}
 }
 
-func epVerifier(in EPIn, withPluginMgr bool) (interface {
+func epVerifier(in EPIn, withPluginMgr bool, salt uint32) (interface {
 	notation.Verifier
 	notation.BlobVerifier
 }, error) {
@@ -94,7 +94,8 @@ func epVerifier(in EPIn, withPluginMgr bool) (interface {
 	sv, stores, ids := epStatement(in.Level, in.Sig == "validTS")
 	st.put(truststore.TypeTSA, "t1", tsaGood().chain.Root())
 	opts := verifier.VerifierOptions{RevocationTimestampingValidator: ctxValidator{&mockRevocation{}}}
-	bad := trustpolicy.SignatureVerification{VerificationLevel: ""} // a statement without level: invalid
+	// an invalid statement: without level, with an unknown one, or with a near miss of a known one (letter case, padding)
+	bad := trustpolicy.SignatureVerification{VerificationLevel: []string{"", "no-such-level", "Strict", " strict", "AUDIT", "skip ", "Permissive\n"}[salt%7]}
 	if strings.HasPrefix(in.Construct, "both-") {
 		opts.OCITrustPolicy = &trustpolicy.OCIDocument{Version: "1.0", TrustPolicies: []trustpolicy.OCITrustPolicy{{Name: "p", SignatureVerification: sv, TrustStores: stores, TrustedIdentities: ids, RegistryScopes: []string{"*"}}}}
 		opts.BlobTrustPolicy = &trustpolicy.BlobDocument{Version: "1.0", TrustPolicies: []trustpolicy.BlobTrustPolicy{{Name: "bp", SignatureVerification: sv, TrustStores: stores, TrustedIdentities: ids}}}
@@ -193,7 +194,7 @@ func runEntryPoints() int {
 		var in EPIn
 		must(json.Unmarshal(c.In, &in))
 		format := []string{"jws", "cose"}[mix(*flagSeed, c.ID, "fmt")%2]
-		v, err := epVerifier(in, in.Plugin == "installed")
+		v, err := epVerifier(in, in.Plugin == "installed", mix(*flagSeed, c.ID, "bad"))
 		if err != nil && strings.HasPrefix(in.Construct, "both-") {
 			// refused at construction, as it must be
 			b := EPObs{Outcome: "nil", JudgeOutcome: true, Note: err.Error()}
@@ -388,11 +389,20 @@ func runFuzzBytes() int {
 				format := []string{"jws", "cose"}[r.Intn(2)]
 				ep := EPIn{Construct: "both", Level: in.Level, Sig: "valid", Plugin: []string{"none", "none", "installed"}[r.Intn(3)], RevOpt: "validator",
 					Extra: []string{"", "", "strKey", "intKey", "mapValue", "pluginNumber"}[r.Intn(6)]}
-				v, err := epVerifier(ep, true)
+				v, err := epVerifier(ep, true, 0)
 				must(err)
 				sig := epSignature(ep, format, c.ID)
 				if ep.Extra == "" || r.Intn(3) != 0 {
 					sig = mutate(r, sig) // unusual seeds are also offered as they are
+				}
+				// degenerate signature bytes (nothing, white space, the first byte of a well-formed envelope, "null") and media types that
+				// are not the two envelope types (none, unrelated, near misses): every combination, a few times per work item
+				sigMT := mediaTypeOf(format)
+				if k%5 == 4 {
+					degenerate := [][]byte{{}, []byte(" \t\r\n "), []byte("{"), []byte("{}"), {0xd2}, []byte("null"), []byte("[]"), sig}
+					unusualMT := []string{"", "application/octet-stream", sigMT + " ", strings.ToUpper(sigMT), sigMT + "; x=1", sigMT}
+					j := k/5 + c.ID*len(degenerate)
+					sig, sigMT = degenerate[j%len(degenerate)], unusualMT[(j/len(degenerate))%len(unusualMT)]
 				}
 				var outcome *notation.VerificationOutcome
 				var cerr error
@@ -405,10 +415,10 @@ func runFuzzBytes() int {
 							gen := func(alg digest.Algorithm) (ocispec.Descriptor, error) {
 								return ocispec.Descriptor{MediaType: mtA, Digest: alg.FromBytes(blobA), Size: int64(len(blobA))}, nil
 							}
-							outcome, cerr = v.VerifyBlob(ctx, gen, sig, notation.BlobVerifierVerifyOptions{SignatureMediaType: mediaTypeOf(format), TrustPolicyName: "bp"})
+							outcome, cerr = v.VerifyBlob(ctx, gen, sig, notation.BlobVerifierVerifyOptions{SignatureMediaType: sigMT, TrustPolicyName: "bp"})
 						} else {
 							d := ocispec.Descriptor{MediaType: mtA, Digest: digestOf(digest.SHA256, blobA), Size: int64(len(blobA))}
-							outcome, cerr = v.Verify(ctx, d, sig, notation.VerifierVerifyOptions{ArtifactReference: artifactRef(), SignatureMediaType: mediaTypeOf(format)})
+							outcome, cerr = v.Verify(ctx, d, sig, notation.VerifierVerifyOptions{ArtifactReference: artifactRef(), SignatureMediaType: sigMT})
 						}
 					})
 				})
